@@ -356,6 +356,10 @@ fn eval_oneshot(sc: &Scenario, root: &Path, stats: &mut Stats, oracle: fn(&InvCt
                 idx += 1;
                 let c = InvCtx::new(sc, inv, &r);
                 stats.absorb_run(inv, &r, nontrivial(&c));
+                let late = late_requests(&r);
+                if late > 0 {
+                    *stats.probes.entry("request-delivered-to-completed-target".into()).or_insert(0) += late;
+                }
                 stats.sim_ticks += r.footer.as_ref().map(|f| f.clock.saturating_sub(inv.plan.clock_start)).unwrap_or(0);
                 if stats.sample.is_none() {
                     stats.sample = Some(sample_of(sc, inv, &r));
@@ -420,9 +424,29 @@ impl Property for C04 {
         sc.steps.push(Step::Invoke(inv));
         sc
     }
-    fn evaluate(&self, sc: &Scenario, root: &Path, stats: &mut Stats) -> Option<Violation> {
-        eval_oneshot(sc, root, stats, oracle_c04, multi_dep_started)
+    fn required_probes(&self) -> Vec<&'static str> {
+        vec!["send-blocked-on-full-queue", "request-delivered-to-completed-target"]
     }
+    fn evaluate(&self, sc: &Scenario, root: &Path, stats: &mut Stats) -> Option<Violation> {
+        eval_oneshot(sc, root, stats, oracle_c04, |c| {
+            multi_dep_started(c)
+        })
+    }
+}
+
+/// Reach probe: a `Requested{Build}` received by an actor task after that task reported its
+/// build done (the late-requester situation of C04's statement).
+pub fn late_requests(r: &RunResult) -> u64 {
+    let mut done_tasks: BTreeSet<&str> = BTreeSet::new();
+    let mut n = 0;
+    for e in &r.events {
+        if e.kind == "log" && (e.rest.contains(" - Build success") || e.rest.contains(" - Build skipped")) {
+            done_tasks.insert(e.task.as_str());
+        } else if e.kind == "recv" && e.rest.contains(" Requested{kind:Build") && done_tasks.contains(e.task.as_str()) {
+            n += 1;
+        }
+    }
+    n
 }
 
 // ------------------------------------------------------------------ C01 (one-shot part)
